@@ -867,6 +867,9 @@ fn run_transaction(inp: &[u8], brk: i64) -> String {
             let same = ab.as_ptr() == x.as_ref().as_ptr() && ab.len() == x.as_ref().len();
             let fb = <bsl::Transaction as RedbValue>::from_bytes(ab);
             write!(s, " x_db={},{},{}", same as u8, (fb == *x) as u8, <bsl::Transaction as RedbValue>::fixed_width().map(|v| v as i64).unwrap_or(-1)).unwrap();
+            // the value decoded from the database representation exposes the same derived quantities
+            write!(s, " x_dbtx={},{},{}", (fb.weight() == x.weight()) as u8, (fb.txid_preimage() == x.txid_preimage()) as u8,
+                   (fb.txid() == x.txid() && fb.txid_sha2() == x.txid_sha2()) as u8).unwrap();
             s
         }
         Err(e) => format!("{}{}", res_err(e), rec.events()),
